@@ -43,3 +43,39 @@ claim("C36", "TLC model checking of spec/Cache.tla (3 concurrent runs, writer cr
       "behaviours and its real file content / tables compared with the model state; crash offsets enumerated on "
       "the real file",
       TB + "; threads with gated fs calls stand for processes")
+
+claim("C20", "TLC model checking of spec/EPStar.tla (exact rational transcription of the fixed-child EP update, damping, "
+      "max_shape rescaling, visiting order, scale absorption: ExactUncapped, ShapeCapped, Book; CapScaled shown to "
+      "fail) + replay of every generated star instance by stepping the real ExpectationPropagation.iterate() and "
+      "comparing node_posterior with the model state after every iteration (rtol 1e-12), plus full "
+      "variational_gamma() calls",
+      "exhaustive over star-like instances in scope; code bound to the model after every iteration, so the "
+      "statement is decided on the code both where it holds (uncapped) and where it fails (capped: recorded finding)",
+      TB + "; float64 vs exact rationals compared at rtol 1e-12")
+claim("C21", "TLC model checking of spec/EPAny.tla (Book / FixedUntouched / AbsorbKeepsPosterior for every projection "
+      "outcome incl. skips, all five update branches, singleton blocks, prior update, scale absorption anywhere) and "
+      "of Book on spec/EPStar.tla + stepping the real iterate() on star instances + TLC trace validation "
+      "(spec/EPTrace.tla) of per-iteration observations made through the guarded hook inside real "
+      "variational_gamma() calls",
+      "algebraic bookkeeping identity checked exhaustively on the model for arbitrary projection outcomes; every "
+      "iteration of every observed real call is decided by TLC on recorded predicates",
+      TB + "; predicate 'book' = shapes and rates agree to rtol 1e-9")
+claim("C05", "TLC model checking of spec/EPAny.tla (ShapeCapped, ProperOrNeverUpdated under every skip pattern) and "
+      "spec/EPStar.tla (ShapeCapped) + TLC trace validation (spec/EPTrace.tla) of real variational_gamma() calls x "
+      "max_iterations x max_shape x rescaling x singletons_phased: per-iteration cap/properness and the final "
+      "node / mutation / phase post-conditions",
+      "design-level exhaustive in scope; every observed real call decided by TLC on recorded predicates",
+      TB)
+claim("C22", "TLC model checking of spec/Blocks.tla (BlocksExact, NoPhantomBlock, RephaseSymmetric) + replay of Blocks "
+      "behaviours into phasing.block_singletons + TLC trace validation (spec/EPTrace.tla: PhasedUnmoved, "
+      "UnphasedMoves, RephaseInvariant) of real variational_gamma() calls on diploid inputs and random re-phasings",
+      "block construction exhaustive in the TSGen scope; metamorphic re-phasing pairs on real inputs decided by TLC "
+      "on recorded predicates (rtol 1e-6)",
+      TB)
+claim("C23", "TLC model checking of spec/Realloc.tla (TotalOne, FinalGetsLarger, OthersUnchanged; pre-repair variant "
+      "'swapped' shown to violate) + TLC trace validation (spec/ReallocTrace.tla) recomputing expected per-edge "
+      "counts from blocks, final placements and fitted phases recorded around rescale() in real "
+      "variational_gamma(singletons_phased=False) calls",
+      "reallocation rule exhaustive in the small scope; every observed real call recomputed by TLC in fixed point "
+      "(1/65536) arithmetic",
+      TB)
